@@ -328,7 +328,12 @@ func runJCase(c *jcase, em *Emitter, tags string, queries func(t *vm.Tracer, q f
 				// the cause is part of the verdict, so that a recorded finding about one cause does not cover another
 				wb = fmt.Sprintf("exceeds:reads=%d:copied=%d:allocated=%d", reads, copied, allocated)
 			}
-			em.Op("C20", "S workbound "+jopNames[in.op], wb)
+			wbTags := "C20"
+			if in.op == 7 {
+				// the reference journal's unbounded append is also what C03's "no fatal error" clause is about (known finding D5)
+				wbTags = "C20,C03"
+			}
+			em.Op(wbTags, "S workbound "+jopNames[in.op], wb)
 		}
 	}
 	if panicked != "" && len(jsteps) == 0 {
